@@ -7,6 +7,15 @@ HOOK_COMMITS = subprocess.run(["git", "-C", "/repo", "log", "--format=%H", "--",
                               stdout=subprocess.PIPE, text=True).stdout.split()
 
 CLAIMED = {
+ "C01": dict(cat="proof", tech="Coq proof (monotone bit-set invariant over arbitrary histories) + extracted-model correspondence",
+   text="Theorem for every filter state, every probe-position function (hence every hash, size, numHashes) and every history: after Insert x every later Lookup x is true; fresh filters report everything absent; constructors clamp size/k to >=1. Tied to the code by differential runs of the extracted model (positions from the code's own getIndex) and a false-negative monitor.",
+   note="Trusted: Coq kernel, extraction + OCaml driver, Go harness/generators, bits-and-blooms/bitset semantics as modelled (Set extends, Test beyond length is false), miniredis for the Redis variant.", ref="6 C01"),
+ "C05": dict(cat="proof", tech="Coq proof (totality for m>=128, refutations by vm_compute witnesses) + extracted-model correspondence; accuracy clause partial (statistical)",
+   text="Proved: Update is total for m>=128 for every hash (index in [1,65]); refuted with witnesses: Update panics for every accepted m<=64, empty sketch counts alpha_m*m. Estimator modelled exactly over rationals with a 2^-40 guard band and diffed against Count under all flag combinations. The positive accuracy claim is statistical over the hash and is not a theorem; it is recorded as a known finding (estimate independent of n).",
+   note="Trusted as C01; float rounding of the estimator is bounded by a guard band, the large-range log correction is outside the modelled domain (counted as unmodelled in the evidence).", ref="6 C05"),
+ "C06": dict(cat="proof", tech="Coq proof (register semilattice: pointwise max characterisation, set-dependence, merge = union) + extracted-model correspondence",
+   text="After the fix: commit the full statement is proved for the in-memory variant: state depends only on the set inserted (any permutation/duplication), merge = sketch of the union, commutative, idempotent, later updates agree, mismatch rejected; for every index/rank function and every m. Tied to the code by differential runs on permuted/duplicated/split streams with registers as the observable.",
+   note="Trusted as C01.", ref="6 C06"),
  "C03": dict(cat="proof", tech="Coq proof (cell-sum invariant by induction over histories) + extracted-model correspondence",
    text="Theorems over all rows/cols>=1, all position functions, all histories with total<2^64: true<=Count<=total, exactness for a single element, empty=0; tied to the code by differential runs of the extracted model against CountMinSketch on generated histories, with monitors as the failing-input search.",
    note="Trusted: Coq kernel, ExtrOcamlBasic extraction + OCaml driver, Go harness/generators, go-metro (positions are taken from the code's own getPositions), miniredis for the Redis variant.", ref="6 C03"),
